@@ -27,6 +27,7 @@ struct Profile {
     p_offgrid: f64,   // probability that a creation price is off the grid
     p_offgrid_modify: f64, // probability that a modify price is off the grid
     p_market: f64,
+    p_passive: f64,   // probability that a new limit order is priced on its own side of the alphabet (bids low, asks high): deep books
     trading0: Vec<bool>,
     audit_every: usize,
 }
@@ -51,6 +52,7 @@ fn profile(v: &Value) -> Profile {
         p_offgrid: f("p_offgrid", 0.0),
         p_offgrid_modify: f("p_offgrid_modify", 0.0),
         p_market: f("p_market", 0.15),
+        p_passive: f("p_passive", 0.0),
         trading0: v.get("trading0").and_then(|x| x.as_array()).map(|a| a.iter().map(|x| x.as_bool().unwrap()).collect()).unwrap_or(vec![true]),
         audit_every: f("audit_every", 50.0) as usize,
     }
@@ -172,7 +174,12 @@ fn main() {
                 "cap" | "create" => {
                     let side = if rng.gen::<bool>() { "B" } else { "A" };
                     let mkt = rng.gen::<f64>() < p.p_market;
-                    let pr = if mkt { -1 } else { price(&mut rng, &p, &c, p.p_offgrid) };
+                    let pr = if mkt { -1 } else if rng.gen::<f64>() < p.p_passive {
+                        // own half of the alphabet: the order rests (bids in the lower half, asks in the upper half)
+                        let half = (p.nprices / 2).max(1);
+                        let k = rng.gen_range(0..half) + if side == "A" { half } else { 0 };
+                        ((c.base + k) * c.tick) as i64
+                    } else { price(&mut rng, &p, &c, p.p_offgrid) };
                     Some(json!({"op": op, "dt": dt, "side": side, "vol": rng.gen_range(1..=p.vmax),
                         "tr": rng.gen_range(0..20u32), "price": pr}))
                 }
